@@ -9,6 +9,7 @@
 #include <cstdio>
 #include <cstdlib>
 #include <cstring>
+#include <memory>
 #include <mutex>
 #include <random>
 #include <string>
@@ -263,6 +264,65 @@ static void sc_jk(unsigned seed, int P, int N) {
     if ((int)sink.log.size() != N) viol("key_matching join: " + std::to_string(sink.log.size()) + " tuples for " + std::to_string(N) + " keys");
 }
 
+// write_once_node / overwrite_node with RACING writers and a forced window: the message's copy assignment (the store into the node's
+// buffer, done while the node's lock is held) of the FIRST writer waits (bounded) until the other writers have entered try_put.
+//   write_once_node: exactly one of the racing first writes is accepted, the node keeps THAT value, every present and every future
+//                    successor gets exactly that value (once);
+//   overwrite_node : every write is accepted; the value the node holds at the end is the last one every successor received.
+// The verdict does not depend on timing on a correct node (the wait only widens the window).
+static std::atomic<int> g_wo_entered{0}, g_wo_first{0};
+static int g_wo_writers = 0;
+struct WMsg {
+    int v;
+    WMsg(int x = -1) : v(x) {}
+    WMsg(const WMsg& o) : v(o.v) {}
+    WMsg& operator=(const WMsg& o) {
+        if (o.v > 0 && g_wo_first.exchange(1) == 0) {
+            // the first store into a node buffer: hold the node's lock until the other writers are inside try_put (or 60 ms passed)
+            auto t0 = std::chrono::steady_clock::now();
+            while (g_wo_entered.load() < g_wo_writers && std::chrono::steady_clock::now() - t0 < std::chrono::milliseconds(60)) std::this_thread::yield();
+            std::this_thread::sleep_for(std::chrono::milliseconds(3));
+        }
+        v = o.v; return *this;
+    }
+};
+static void sc_write_once(bool once, unsigned seed, int P, int rounds) {
+    for (int r = 0; r < rounds && g_viol.empty(); ++r) {
+        graph g;
+        std::unique_ptr<overwrite_node<WMsg>> node(once ? (overwrite_node<WMsg>*)new write_once_node<WMsg>(g) : new overwrite_node<WMsg>(g));
+        Sink<int> s1, s2;
+        function_node<WMsg, int> f1(g, serial, [&](const WMsg& m) { s1(m.v); return 0; });
+        function_node<WMsg, int> f2(g, serial, [&](const WMsg& m) { s2(m.v); return 0; });
+        make_edge(*node, f1);
+        g_wo_entered = 0; g_wo_first = 0; g_wo_writers = P;
+        std::vector<int> acc(P, 0);
+        std::vector<std::thread> th;
+        for (int p = 0; p < P; ++p) th.emplace_back([&, p] {
+            std::mt19937 rng(seed * 31 + r * 7 + p); start_skew(rng);
+            g_wo_entered++;
+            acc[p] = node->try_put(WMsg(p + 1)) ? 1 : 0;
+        });
+        for (auto& t : th) t.join();
+        g.wait_for_all();
+        WMsg cur; bool has = node->try_get(cur);
+        make_edge(*node, f2);                 // a future successor
+        g.wait_for_all();
+        int nacc = 0, winner = -1;
+        for (int p = 0; p < P; ++p) if (acc[p]) { nacc++; winner = p + 1; }
+        if (!has) { viol(std::string(once ? "write_once_node" : "overwrite_node") + " holds no value after " + std::to_string(P) + " writes"); break; }
+        if (once) {
+            if (nacc != 1) { viol("write_once_node accepted " + std::to_string(nacc) + " of " + std::to_string(P) + " racing first writes"); break; }
+            if (cur.v != winner) { viol("write_once_node holds " + std::to_string(cur.v) + " but the accepted write was " + std::to_string(winner)); break; }
+            if (s1.log.size() != 1 || s1.log[0] != winner) { viol("write_once_node: the present successor received " + std::to_string(s1.log.size()) + " message(s), first " + std::to_string(s1.log.empty() ? -1 : s1.log[0]) + ", accepted write " + std::to_string(winner)); break; }
+            if (s2.log.size() != 1 || s2.log[0] != winner) { viol("write_once_node: a successor attached later received " + std::to_string(s2.log.empty() ? -1 : s2.log[0]) + " instead of the first value " + std::to_string(winner)); break; }
+        } else {
+            if (nacc != P) { viol("overwrite_node rejected a write"); break; }
+            if (s1.log.empty() || s1.log.back() != cur.v) { viol("overwrite_node holds " + std::to_string(cur.v) + " but the last value its successor received is " + std::to_string(s1.log.empty() ? -1 : s1.log.back())); break; }
+            if (s2.log.size() != 1 || s2.log[0] != cur.v) { viol("overwrite_node: a successor attached later did not receive the held value"); break; }
+        }
+    }
+}
+
 int main(int argc, char** argv) {
     if (argc < 5) { fprintf(stderr, "usage: mt <scenario> <seed> <threads> <n> [threshold]\n"); return 2; }
     std::string sc = argv[1]; unsigned seed = (unsigned)atoi(argv[2]); int P = atoi(argv[3]), N = atoi(argv[4]);
@@ -277,6 +337,8 @@ int main(int argc, char** argv) {
     else if (sc == "jr") sc_join2<reserving>(seed, N, true);
     else if (sc == "jqm") sc_jq_multi(seed, P, N);
     else if (sc == "jk") sc_jk(seed, P, N);
+    else if (sc == "wonce") sc_write_once(true, seed, P, N);
+    else if (sc == "owrite") sc_write_once(false, seed, P, N);
     else { fprintf(stderr, "unknown scenario\n"); return 2; }
     if (g_viol.empty()) printf("ok scenario=%s seed=%u threads=%d n=%d\n", sc.c_str(), seed, P, N);
     else printf("VIOLATION %s\n", g_viol.c_str());
